@@ -497,6 +497,11 @@ func (v *Verifier) verifyFunc(fn *ssa.Function, fc *FuncContract, em *Emitter, g
 				fx.clauseFaults = append(fx.clauseFaults, fmt.Sprintf("contract of %s: call site %s#%d not found", fx.relName(), cs.Callee, cs.Ordinal))
 			}
 		}
+		for _, rs := range fc.Returns {
+			if !fx.usedCallSites[rs] {
+				fx.clauseFaults = append(fx.clauseFaults, fmt.Sprintf("contract of %s: return #%d not found", fx.relName(), rs.Ordinal))
+			}
+		}
 		for _, ss := range fc.Stores {
 			if !fx.usedCallSites[ss] {
 				fx.clauseFaults = append(fx.clauseFaults, fmt.Sprintf("contract of %s: store site %s#%d not found", fx.relName(), ss.Callee, ss.Ordinal))
